@@ -999,6 +999,13 @@ fn gen_c06(tier: &str, rng: &mut Rng, emit: &mut dyn FnMut(Op)) {
             }
         }
     }
+    // EVERY ordered pair of the version pool under one pattern (the random pairs above thin out
+    // as the pool grows; which two versions expose a wrong comparison is not known in advance)
+    for v1 in vers {
+        for v2 in vers {
+            emit(Op::s("pattern.best", &["foo-[0-9.]*", &format!("foo-{}", v1), &format!("foo-{}", v2)]));
+        }
+    }
     // a candidate without '-' has the empty version, whatever its name looks like
     for p in ["foo*", "*", "{foo,foo-[0-9]*}", "{rc,rc-[0-9]*}", "f*", "{foo,bar}*"] {
         for a in ["foo", "foo1", "foo2.0", "fooz", "rc", "bar", "bar9"] {
